@@ -18,6 +18,11 @@ fn g(s: &Stats, k: &str) -> u64 {
     s.get(k).cloned().unwrap_or(0)
 }
 
+/// Workload families the broad safety properties (C01, C03, C05, C20) rotate through in every second run.
+fn families() -> Vec<Profile> {
+    ["C02", "C04", "C08", "C09", "C13", "C14", "C15", "C17"].iter().map(|id| spec(id).profile).collect()
+}
+
 pub fn spec(id: &str) -> Spec {
     let mut p = Profile::general();
     let (quick, thorough): (u64, u64) = (40_000, 600_000);
@@ -38,9 +43,13 @@ pub fn spec(id: &str) -> Spec {
             Spec { profile: p, quick_runs: 60_000, thorough_runs: thorough, nontrivial: |s, _| g(s, "leaders_elected") >= 3,
                 rule: ">= 3 leaders elected (distinct terms) in the run" }
         }
-        "C03" => Spec { profile: p, quick_runs: quick, thorough_runs: thorough,
-            nontrivial: |s, _| g(s, "leaders_elected") >= 2 && g(s, "commits") >= 2 && g(s, "chk.C03.grant_up_to_date") >= 1,
-            rule: ">= 2 leaders, >= 2 commits and >= 1 granted (pre-)vote checked" },
+        "C03" => {
+            p.name = "general / all families";
+            p.mix = families();
+            Spec { profile: p, quick_runs: quick, thorough_runs: thorough,
+                nontrivial: |s, _| g(s, "leaders_elected") >= 2 && g(s, "commits") >= 2 && g(s, "chk.C03.grant_up_to_date") >= 1,
+                rule: ">= 2 leaders, >= 2 commits and >= 1 granted (pre-)vote checked" }
+        }
         "C04" | "C06" | "C07" => {
             p.name = "durability";
             p.voters = (1, 5);
@@ -207,14 +216,21 @@ pub fn spec(id: &str) -> Spec {
                 rule: ">= 1 transfer started and >= 1 MsgTimeoutNow sent or transfer aborted by timeout" }
         }
         "C20" => {
-            p.name = "general+bogus";
+            p.name = "general+bogus / all families";
             p.w_bogus = 8;
+            p.mix = families();
             Spec { profile: p, quick_runs: quick, thorough_runs: thorough,
                 nontrivial: |s, _| g(s, "leaders_elected") >= 2 && g(s, "commits") >= 1 && g(s, "restarts") >= 1,
                 rule: ">= 2 leaders, >= 1 commit and >= 1 restart in the run" }
         }
         _ => Spec {
-            profile: p,
+            profile: {
+                if matches!(id, "C01" | "C05") {
+                    p.name = "general / all families";
+                    p.mix = families();
+                }
+                p
+            },
             quick_runs: quick,
             thorough_runs: thorough,
             nontrivial: |s, _f| g(s, "leaders_elected") >= 2 && g(s, "commits") >= 1,
